@@ -2,3 +2,4 @@ import SqlairModel.Bytes
 import SqlairModel.Parser
 import SqlairModel.Lexer
 import SqlairModel.Spec.L1
+import SqlairModel.Store
